@@ -208,6 +208,9 @@ impl Ctx {
         if self.strict {
             return false;
         }
+        if std::env::var("RLV_NO_SWITCH").is_ok_and(|s| s.split(',').any(|x| x == switch)) {
+            return false;
+        }
         self.known.findings.iter().any(|f| {
             f.status == "open"
                 && (f.property == self.prop || f.shared_with.iter().any(|p| *p == self.prop))
@@ -219,10 +222,12 @@ impl Ctx {
         if self.strict {
             return vec![];
         }
+        // development aid: RLV_NO_SWITCH=a,b re-enables the named shapes
+        let on: Vec<String> = std::env::var("RLV_NO_SWITCH").map(|s| s.split(',').map(|x| x.to_string()).collect()).unwrap_or_default();
         let mut v = vec![];
         for f in &self.known.findings {
             if f.status == "open" && (f.property == self.prop || f.shared_with.iter().any(|p| *p == self.prop)) {
-                v.extend(f.excludes.iter().cloned());
+                v.extend(f.excludes.iter().filter(|e| !on.contains(e)).cloned());
             }
         }
         v
@@ -266,8 +271,10 @@ impl Ctx {
     }
     pub fn ablate_rules(&self) -> Vec<String> {
         let mut v = vec![];
-        for f in self.known.open_for(&self.prop) {
-            v.extend(f.ablate_rules.iter().cloned());
+        for f in &self.known.findings {
+            if f.status == "open" && (f.property == self.prop || f.shared_with.iter().any(|p| *p == self.prop)) {
+                v.extend(f.ablate_rules.iter().cloned());
+            }
         }
         v
     }
